@@ -39,6 +39,19 @@ def run(ck):
         if origin in ("program", "multi", "prefix"):
             f2 = {p: ("// é\U0001F600\r\n" + t.replace("\n", "\r\n", 1)) for p, t in files.items()}
             extra.append((f2, root, origin + "+wide"))
+    # an include that resolves to a file without a statement (empty, a comment, disabled as a whole) in front of everything else
+    # the including file reports: what is reported afterwards still names the including file
+    stubs = ["", "// \u30b3\u30e1\u30f3\u30c8", "#ifdef NEVER_DEFINED\n// \u3042\u3042\nclass Hidden;\n#endif\n", "\ufeff\n\n", ")"]
+    for i, (files, root, origin) in enumerate(wss[: (120 if quick else 2500)]):
+        if origin in ("program", "multi", "prefix", "stress"):
+            d_ = root.rsplit("/", 1)[0]
+            f2 = dict(files)
+            f2[d_ + "/stub9.td"] = stubs[i % len(stubs)]
+            f2[root] = 'include "stub9.td"\n' + files[root]
+            extra.append((f2, root, origin + "+stub"))
+    # the workspaces on which model and implementation disagreed are searched for a failing input as well
+    for m in mism[:60]:
+        extra.append((m["case"]["files"], m["case"]["root"], "disagreement"))
     wss = wss + extra
     lines = ["ws " + json.dumps({"files": f, "root": r, "sweep": {"max_points": 300 if quick else 1200, "max_hint_ranges": 200 if quick else 1500}}) for f, r, _ in wss]
     res = core.impl(lines, timeout=900, tag="c17")
